@@ -2,6 +2,7 @@ package rules
 
 import (
 	"fmt"
+	"go/token"
 	"go/types"
 	"strings"
 
@@ -416,11 +417,34 @@ func init() {
 					continue
 				}
 				in := vpIsParam(tps[len(tps)-1])
+				isList := strings.Contains(spec, "RGATreeList")
 				neighbour := VP{"right neighbour's ticket", func(v ssa.Value) bool {
-					return prog.DependsOn(v, func(w ssa.Value) bool {
+					fromNext := prog.DependsOn(v, func(w ssa.Value) bool {
 						f := prog.LoadedField(w)
 						return f != nil && f.Name() == "next"
 					})
+					if !fromNext {
+						return false
+					}
+					if !isList {
+						return true
+					}
+					// array slots move: the ticket that orders a slot is its position stamp
+					// (PositionedAt: movedAt if set, else createdAt), not the element's creation ticket
+					c, ok := prog.Strip(v).(*ssa.Call)
+					if ok {
+						name := ""
+						if c.Call.IsInvoke() {
+							name = c.Call.Method.Name()
+						} else if o := prog.CallObj(c); o != nil {
+							name = o.Name()
+						}
+						return name == "PositionedAt"
+					}
+					if ph, ok := prog.Strip(v).(*ssa.Phi); ok {
+						return len(ph.Edges) >= 2
+					}
+					return false
 				}}
 				found, ok := false, false
 				where := x.fpos(fn)
@@ -476,4 +500,174 @@ func reachesAvoiding(from, target, avoid *ssa.BasicBlock) bool {
 		q = append(q, b.Succs...)
 	}
 	return false
+}
+
+// phiConstEdges walks the (nested) phi edges of v and calls f for every incoming
+// edge that carries a non-phi value.
+func phiEdges(v ssa.Value, f func(val ssa.Value, edge prog.Edge), seen map[*ssa.Phi]bool) {
+	ph, ok := v.(*ssa.Phi)
+	if !ok || seen[ph] {
+		return
+	}
+	seen[ph] = true
+	for i, e := range ph.Edges {
+		if q, isPhi := e.(*ssa.Phi); isPhi {
+			phiEdges(q, f, seen)
+			continue
+		}
+		f(e, prog.Edge{From: ph.Block().Preds[i], To: ph.Block()})
+	}
+}
+
+// edgeGuarded: is the CFG edge reachable from the function entry only through a
+// guard edge of cmps?
+func edgeGuarded(fn *ssa.Function, e prog.Edge, cmps []Cmp) bool {
+	guards, _ := GuardEdges(fn, cmps, nil)
+	cut := map[prog.Edge]bool{}
+	for g := range guards {
+		cut[g] = true
+	}
+	if len(cut) == 0 {
+		return false
+	}
+	if cut[e] {
+		return true
+	}
+	if e.From == fn.Blocks[0] {
+		return false
+	}
+	return !prog.ReachableFrom(fn.Blocks[0], cut)[e.From]
+}
+
+func init() {
+	register(&Rule{ID: "VIS", Min: 10, Text: "visibility is decided from the operation's own version vector: the 'client lamport at change' handed to canStyle (Text.Style/RemoveStyle, Tree.Style/RemoveStyle) is MaxLamport only on the edge where the vector is empty (a local edit), the vector's entry for the node's creator only on the found edge, and 0 when the creator is absent; the creationKnown/tombstoneKnown flags handed to the text-node Remove are true only on the edge where the vector is empty or the vector's entry for the ticket's actor is >= the ticket's lamport; tree's ticketKnown is true only on those edges too",
+		Run: func(x *Ctx) {
+			maxLam, okM := x.constInt(timePkg + ".MaxLamport")
+			if !okM {
+				return
+			}
+			vvT := x.P.Named(timePkg + ".VersionVector")
+			getM := x.P.FnObj(timePkg + ".VersionVector.Get")
+			emptyVV := func(fn *ssa.Function) []Cmp {
+				lenVV := VP{"len(versionVector)", func(v ssa.Value) bool {
+					c, ok := prog.Strip(v).(*ssa.Call)
+					if !ok {
+						return false
+					}
+					b, ok := c.Call.Value.(*ssa.Builtin)
+					return ok && b.Name() == "len" && isNamed(c.Call.Args[0].Type(), vvT)
+				}}
+				// or a boolean variable (possibly captured by a closure) holding len(vector) == 0
+				flag := VP{"vector-is-empty flag", func(v ssa.Value) bool {
+					if _, isCmp := v.(*ssa.BinOp); isCmp {
+						return false // handled by the direct form
+					}
+					return prog.Reaches(v, func(w ssa.Value) bool {
+						b, ok := w.(*ssa.BinOp)
+						if !ok || b.Op != token.EQL {
+							return false
+						}
+						z, isZ := prog.IntConst(b.Y)
+						return isZ && z == 0 && lenVV.match(b.X)
+					})
+				}}
+				return []Cmp{{L: lenVV, R: vpConst(0), Want: EQ}, isTrue(flag)}
+			}
+			found := VP{"vector.Get ok", func(v ssa.Value) bool {
+				ex, ok := v.(*ssa.Extract)
+				if !ok || ex.Index != 1 {
+					return false
+				}
+				c, ok := ex.Tuple.(*ssa.Call)
+				return ok && sameFunc(prog.CallObj(c), getM)
+			}}
+			entry := VP{"vector[actor]", func(v ssa.Value) bool {
+				ex, ok := v.(*ssa.Extract)
+				if !ok || ex.Index != 0 {
+					return false
+				}
+				c, ok := ex.Tuple.(*ssa.Call)
+				return ok && sameFunc(prog.CallObj(c), getM)
+			}}
+			lamportOf := VP{"ticket.Lamport()", func(v ssa.Value) bool {
+				c, ok := prog.Strip(v).(*ssa.Call)
+				return ok && prog.CallObj(c) != nil && prog.CallObj(c).Name() == "Lamport"
+			}}
+			n := 0
+			for _, fn := range x.P.FuncsIn(crdtPkg) {
+				if o := fn.Origin(); o != nil && o != fn {
+					continue
+				}
+				for _, c := range prog.CallsIn(fn) {
+					o := prog.CallObj(c)
+					if o == nil {
+						continue
+					}
+					switch o.Name() {
+					case "canStyle":
+						arg := c.Common().Args[len(c.Common().Args)-1]
+						n++
+						k := fmt.Sprintf("func=%s canStyle#%d", prog.FnName(fn), n)
+						okMax, okEntry, okZero, other := true, true, false, ""
+						sawMax, sawEntry := false, false
+						phiEdges(arg, func(val ssa.Value, e prog.Edge) {
+							if kv, isK := prog.IntConst(val); isK {
+								switch kv {
+								case maxLam:
+									sawMax = true
+									if !edgeGuarded(fn, e, emptyVV(fn)) {
+										okMax = false
+									}
+								case 0:
+									okZero = true
+								default:
+									other = fmt.Sprint(kv)
+								}
+								return
+							}
+							if entry.match(val) {
+								sawEntry = true
+								if !edgeGuarded(fn, e, []Cmp{isTrue(found)}) {
+									okEntry = false
+								}
+								return
+							}
+							other = val.String()
+						}, map[*ssa.Phi]bool{})
+						x.check(sawMax && okMax, k+" MaxLamport-only-for-empty-vector", x.pos(c), "everything is visible only to a local edit", "MaxLamport (everything visible) is used on an edge where the operation's version vector is not empty: a remote style is applied to nodes its author never saw")
+						x.check(sawEntry && okEntry, k+" entry-only-when-found", x.pos(c), "the creator's entry is used when present", "the creator's entry is not taken from the vector on the found edge")
+						x.check(okZero && other == "", k+" absent-creator-is-0", x.pos(c), "an absent creator means nothing of it was seen", "a creator absent from the version vector does not map to 0 (found: "+other+"): nodes its author never saw count as seen")
+					case "Remove":
+						// text-node Remove(editedAt, creationKnown, tombstoneKnown)
+						if len(c.Common().Args) != 4 {
+							continue
+						}
+						if !isBoolType(c.Common().Args[2].Type()) || !isBoolType(c.Common().Args[3].Type()) {
+							continue
+						}
+						for idx, what := range map[int]string{2: "creationKnown", 3: "tombstoneKnown"} {
+							n++
+							k := fmt.Sprintf("func=%s Remove-arg=%s", prog.FnName(fn), what)
+							okTrue, saw := true, false
+							phiEdges(c.Common().Args[idx], func(val ssa.Value, e prog.Edge) {
+								if vpTrue.match(val) {
+									saw = true
+									if !edgeGuarded(fn, e, append(emptyVV(fn), Cmp{L: entry, R: lamportOf, Want: GE})) {
+										okTrue = false
+									}
+								}
+							}, map[*ssa.Phi]bool{})
+							x.check(saw && okTrue, k+" true-only-if-local-or-covered", x.pos(c), "the flag is true only for a local edit or when the vector covers the ticket",
+								"the "+what+" flag can be true although the operation's version vector does not cover the ticket: a delete removes text its author never saw (or overwrites a tombstone it knew)")
+						}
+					}
+				}
+			}
+			if fn := x.fn(crdtPkg + ".ticketKnown"); fn != nil {
+				for i, s := range trueSites(fn, 0) {
+					n++
+					x.guardedBool(fmt.Sprintf("func=%s true#%d local-or-covered", prog.FnName(fn), i+1), s, append(emptyVV(fn), Cmp{L: entry, R: lamportOf, Want: GE}))
+				}
+			}
+		}})
 }
